@@ -161,7 +161,7 @@ func (r *regexMap) String(ctx *sql.Ctx, opts ...int) (string, error) {
 		"arrayFilter("+
 		" (x,y) -> x != '' AND y != '',"+
 		"  [%[1]s] as re_lbls_%[2]d,"+
-		"  arrayMap(x -> x[length(x)], extractAllGroupsHorizontal(%[4]s, %[3]s)) as re_vals_%[2]d),"+
+		"  arrayMap(x -> x[1], extractAllGroupsHorizontal(%[4]s, %[3]s)) as re_vals_%[2]d),"+
 		"arrayFilter((x,y) -> x != '' AND y != '', re_vals_%[2]d, re_lbls_%[2]d))",
 		strings.Join(strLabels, ","),
 		id,
